@@ -152,8 +152,8 @@ pub fn check_envelope(acc: &mut Acc, e: &Envelope, cid: &dyn Fn() -> String) {
             }
             // object forms: decorated matches make the current code panic (reported under C16); compare when it returns
             match catch(|| e.object_for_predicate(pe.clone())) {
-                Ok(Ok(g)) => { let w: Option<&O> = if want_set.len() == 1 { if let O::Assertion(_, _, ob) = innermost_subject(&want_set[0]) { Some(&**ob) } else { None } } else { None }; if w != Some(&bind::observe(&g)) && !(want_set.len() == 1 && matches!(want_set[0], O::Node(..))) { acc.viol(format!("C15|object_for_predicate|{pn}|{sc}|wrong-result"), "returned an object that is not the object of the single matching assertion", cid2(), det()) } }
-                Ok(Err(_)) => if want_set.len() == 1 && !matches!(want_set[0], O::Node(..)) { acc.viol(format!("C15|object_for_predicate|{pn}|{sc}|refused"), "single match refused", cid2(), det()) },
+                Ok(Ok(g)) => { let w: Option<&O> = if want_set.len() == 1 { if let O::Assertion(_, _, ob) = innermost_subject(&want_set[0]) { Some(&**ob) } else { None } } else { None }; if w != Some(&bind::observe(&g)) { acc.viol(format!("C15|object_for_predicate|{pn}|{sc}|wrong-result"), "returned an object that is not the object of the single matching assertion", cid2(), det()) } }
+                Ok(Err(_)) => if want_set.len() == 1 { acc.viol(format!("C15|object_for_predicate|{pn}|{sc}|refused"), "single match refused", cid2(), det()) },
                 Err(_) => acc.inc("panics_counted_under_C16"),
             }
             // optional form: the object iff exactly one match (decorated matches included), None iff none, an error iff several
@@ -164,7 +164,7 @@ pub fn check_envelope(acc: &mut Acc, e: &Envelope, cid: &dyn Fn() -> String) {
                 Err(_) => acc.inc("panics_counted_under_C16"),
             }
             match catch(|| e.objects_for_predicate(pe.clone())) {
-                Ok(g) => { let mut g: Vec<D> = g.iter().map(bind::dg).collect(); let mut w: Vec<D> = want_set.iter().filter_map(|x| if let O::Assertion(_, _, ob) = innermost_subject(x) { Some(ob.digest()) } else { None }).collect(); g.sort(); w.sort(); if g != w && !want_set.iter().any(|x| matches!(x, O::Node(..))) { acc.viol(format!("C15|objects_for_predicate|{pn}|{sc}"), "objects differ", cid2(), det()) } }
+                Ok(g) => { let mut g: Vec<D> = g.iter().map(bind::dg).collect(); let mut w: Vec<D> = want_set.iter().filter_map(|x| if let O::Assertion(_, _, ob) = innermost_subject(x) { Some(ob.digest()) } else { None }).collect(); g.sort(); w.sort(); if g != w { acc.viol(format!("C15|objects_for_predicate|{pn}|{sc}"), "objects differ", cid2(), det()) } }
                 Err(_) => acc.inc("panics_counted_under_C16"),
             }
         }
@@ -263,7 +263,7 @@ pub fn run(ctx: &Ctx) -> i32 {
     let wo = if th { 7 } else { 6 }; // obscuration patterns on trees up to this weight
     let mut trees = families::plain(w);
     let nb = trees.len();
-    trees.extend(families::decode_only()); trees.extend(families::nsn());
+    trees.extend(families::decode_only()); trees.extend(families::nsn()); trees.extend(families::valued());
     let acc = trees.par_iter().enumerate().with_max_len(1).map(|(ti, m)| {
         let mut acc = Acc::new();
         acc.inc("trees");
